@@ -23,7 +23,7 @@ static inline void gen_options(Rng &r, Op &o, bool square, bool cplx) {
     static const int cps[] = {NATURAL, MMD_ATA, MMD_AT_PLUS_A, COLAMD, COLAMD, MY_PERMC};
     o.colperm = cps[r.below(6)];
     if (!square && o.colperm == MMD_AT_PLUS_A) o.colperm = MMD_ATA;
-    static const double th[] = {1.0, 1.0, 0.5, 0.1, 0.01, 1e-6};
+    static const double th[] = {1.0, 0.0, 0.5, 0.1, 0.01, 1e-6}; // 0.0: keep the diagonal / remembered pivot whenever it is non-zero
     o.thresh = th[r.below(6)];
     o.symmode = square && r.chance(0.2);
     if (o.symmode) { o.colperm = MMD_AT_PLUS_A; if (r.chance(0.5)) o.thresh = 0.001; }
@@ -33,6 +33,7 @@ static inline void gen_options(Rng &r, Op &o, bool square, bool cplx) {
     o.pivgrowth = r.chance(0.4); o.condnum = r.chance(0.4);
     o.permc_seed = r.next();
     o.nrhs = r.chance(0.1) ? 0 : r.range(1, 3); o.ldpad = r.chance(0.3) ? r.range(1, 3) : 0; o.rhs_seed = r.next();
+    o.ldxpad = (o.rhs_seed & 1) ? -1 : (int)((o.rhs_seed >> 1) % 4); // X gets its own leading dimension (derived, no extra draw)
 }
 static inline void gen_ilu_options(Rng &r, Op &o) {
     static const int rules[] = {DROP_BASIC | DROP_AREA, DROP_BASIC, DROP_BASIC | DROP_PROWS, DROP_BASIC | DROP_COLUMN, DROP_BASIC | DROP_AREA | DROP_DYNAMIC,
